@@ -1,8 +1,9 @@
 #include "../engine/vx.h"
-extern const vx_harness h_once, h_sema, h_q01;
+extern const vx_harness h_once, h_sema, h_q01, h_q02, h_q03, h_q04, h_q05, h_group;
 const vx_harness *const vx_harnesses[] = {
 	&h_once,
 	&h_sema,
-	&h_q01,
+	&h_q01, &h_q02, &h_q03, &h_q04, &h_q05,
+	&h_group,
 	0
 };
